@@ -20,9 +20,14 @@ struct Interp {
     std::string dir, path;
     explicit Interp(Ctx &c) : ctx(c) {}
     void enter() {
-        char tmpl[] = "/tmp/vt19-XXXXXX";
-        VT_CHECK(ctx, mkdtemp(tmpl) != nullptr, "harness", "mkdtemp failed");
-        dir = tmpl;
+        // inside the run's scratch directory (removed by check.py whatever happens to the case); a UNIX socket path
+        // must fit sockaddr_un (108 bytes), so fall back to /tmp only if the scratch path is too long
+        std::string base = config().scratch_dir.size() < 70 ? config().scratch_dir : std::string("/tmp");
+        std::string t = base + "/vt19-XXXXXX";
+        std::vector<char> tmpl(t.begin(), t.end());
+        tmpl.push_back(0);
+        VT_CHECK(ctx, mkdtemp(tmpl.data()) != nullptr, "harness", "mkdtemp failed");
+        dir = tmpl.data();
         path = dir + "/s";
     }
     void leave() { unlink(path.c_str()); rmdir(dir.c_str()); }
